@@ -17,7 +17,7 @@ theorem length_scatterLin (d : List α) (es : List (Nat × α)) : (scatterLin d 
   | nil => rfl
   | cons e es ih => rw [List.foldl_cons, ih, List.length_set]
 
-theorem getD_set' (d : List α) (j k : Nat) (v z : α) (hj : j < d.length) :
+theorem getD_set_c01 (d : List α) (j k : Nat) (v z : α) (hj : j < d.length) :
     (d.set j v).getD k z = if j = k then v else d.getD k z := by
   simp only [List.getD_eq_getElem?_getD, List.getElem?_set]
   split
@@ -43,7 +43,7 @@ theorem getD_scatterLin (d : List α) (es : List (Nat × α)) (k : Nat) (z : α)
     | some e' => rfl
     | none =>
       simp only [Option.none_or, List.find?_cons, List.find?_nil]
-      rw [getD_set' d e.1 k e.2 z he]
+      rw [getD_set_c01 d e.1 k e.2 z he]
       by_cases hk : e.1 = k
       · simp [hk]
       · have : (e.1 == k) = false := by simpa using hk
